@@ -1386,8 +1386,10 @@ class Engine:
                     c = left.e == right.e
                 elif isinstance(left, (VLib, VNone, VStr)) and isinstance(right, (VLib, VNone, VStr)):
                     c = z3.BoolVal(type(left) is type(right) and getattr(left, "name", getattr(left, "s", None)) == getattr(right, "name", getattr(right, "s", None)))
+                elif all(isinstance(x_, (VNum, VSeq, VMat, VTuple, VOpaque, VOptNum, VOptSeq)) or type(x_).__name__ == "VVal" for x_ in (left, right)):
+                    c = fresh("same_object?", z3.BoolSort())          # identity of value objects is not tracked (values are terms): either answer is possible, both are explored
                 else:
-                    raise Unsupported("is " + ast.unparse(n))
+                    raise Unsupported("is " + ast.unparse(n) + " [" + type(left).__name__ + " / " + type(right).__name__ + "]")
                 conj.append(c if isinstance(op, ast.Is) else z3.Not(c))
             elif isinstance(left, (VNum, VOptNum)) and isinstance(right, (VNum, VOptNum)):
                 x, y = num_pair(self.num(left, st, ast.unparse(n)), self.num(right, st, ast.unparse(n)))
